@@ -36,6 +36,8 @@ import (
 //   tcline                        measurement of the toolchain model: constraint.Parse of `// +build` lines
 //   ctx                           build.Context.ConstraintExpr sequences
 //   accept-badutf8                a term that is not valid UTF-8 must be invalid
+//   hist / accept-hist            call histories: the same *ir.File printed repeatedly by both printers with its
+//                                 constraints changed in between, several files, re-allocation (c14hist.go)
 
 type c14Formula [][][]string
 
@@ -242,18 +244,19 @@ func c14MatchFile(name string, content []byte, v map[string]bool) (bool, error) 
 
 type c14Stats struct {
 	Formulas, Valid, Invalid, WithEmptyOption, WithEmptyConstraint, EmptySet int
-	WithUnicode, WithNegation, Assignments, IgnoreVariants               int
-	Lines, Options, Terms, Universe                                      map[string]int
-	TermRequests, ParseRequests, ParseErrors, TclineRequests, TclineNot  int
-	CtxRequests, BigFormulas, AvoValidCodepoints, ToolchainRejected      int
-	FormatEmptyForNonEmptySet                                            int
+	WithUnicode, WithNegation, Assignments, IgnoreVariants                   int
+	Lines, Options, Terms, Universe                                          map[string]int
+	TermRequests, ParseRequests, ParseErrors, TclineRequests, TclineNot      int
+	CtxRequests, BigFormulas, AvoValidCodepoints, ToolchainRejected          int
+	FormatEmptyForNonEmptySet                                                int
 	// judged accept-tags lines, Format errors, formulas with a header line near/over the 64 KiB scanner limit
 	Judged, FormatErrors, LongFormulas, LongOverLimit, LongUnderLimit int
-	LargeShapeFormulas, InvalidEvaluated, BadUTF8Terms              int
-	FileShapes                                                      map[string]int
-	MatchFileErrors, PrinterErrors                                  int
-	SyntaxPlus, SyntaxGo                                            bool
-	ParseJudged, CtxFormulas                                        int
+	LargeShapeFormulas, InvalidEvaluated, BadUTF8Terms                int
+	FileShapes                                                        map[string]int
+	MatchFileErrors, PrinterErrors                                    int
+	SyntaxPlus, SyntaxGo                                              bool
+	ParseJudged, CtxFormulas                                          int
+	c14HistStats
 }
 
 type c14Run struct {
@@ -1038,12 +1041,12 @@ func c14BigFormulas() []c14Formula {
 	one := [][]string{{"c"}}
 	return []c14Formula{
 		{{c14Repeat(100, pool)}},
-		{{c14Repeat(101, pool)}},       // 100 operators: the last line go/format converts
-		{{c14Repeat(102, pool)}},       // 101 operators: F8c
-		{opts(101, 1)},                 // 100 ORs
-		{opts(102, 1)},                 // F8c
-		{opts(50, 2)}, {opts(34, 3)},   // 99 / 101 operators
-		{opts(51, 2)},                  // 101 operators: F8c
+		{{c14Repeat(101, pool)}},     // 100 operators: the last line go/format converts
+		{{c14Repeat(102, pool)}},     // 101 operators: F8c
+		{opts(101, 1)},               // 100 ORs
+		{opts(102, 1)},               // F8c
+		{opts(50, 2)}, {opts(34, 3)}, // 99 / 101 operators
+		{opts(51, 2)}, // 101 operators: F8c
 		{{c14Repeat(101, pool)}, {{"a"}}, {c14Repeat(102, pool)}}, // one bad line spoils the header
 		lines(10, [][]string{c14Repeat(100, pool)}),               // 1000 operands
 		lines(11, [][]string{c14Repeat(100, pool)}),               // 1100 operands: F8d
@@ -1272,6 +1275,15 @@ func init() {
 			}
 			run.ctx(es)
 		}
+
+		// call histories in one process: files printed repeatedly with their constraints changed in between (c14hist.go)
+		for _, fh := range c14FixedHistories() {
+			run.runHist(fh[0], fh[1], nil)
+		}
+		for k := 0; k < *f.n/16+8; k++ {
+			names, gen := c14GenHistory(r)
+			run.runHist(names, nil, gen)
+		}
 		return writeJSON(*f.stats, st)
 	})
 }
@@ -1348,6 +1360,8 @@ func (r *c14Run) replay(path string) error {
 					r.ctx(es)
 				}
 			}
+		case "hist", "accept-hist":
+			r.c14ReplayHist(ts)
 		case "parse":
 			r.parse(arg(1))
 		case "parseopt":
